@@ -68,3 +68,11 @@ def bint_reduce_unrelated_dtype(o, k):
             if any(name not in ins for name, _ in n[3]):
                 return True
     return False
+
+
+def bint_floordiv_range(o, k):
+    """Bint // Bint bound is computed for the largest divisor only"""
+    p = _prog_of(o)
+    if p is None or o.get("kind") != "range":
+        return False
+    return any(n[0] == "binary" and n[1] == "floordiv" and _is_int(n[2]) and _is_int(n[3]) for n in _nodes(p))
